@@ -6,10 +6,7 @@ from .common import both
 ID = 'C05'
 TARGETS = ['theories/Properties/C05.vo']
 THEOREMS = core.theorems_of(ID)
-LEVEL = ('hand model of game_start/player/game_end and of the serde renderings; proved: raw block retained, every exposed field is the value at '
-         'its spec offset, optional tails present iff the block is long enough, players = ports 1-4 with type 0/1/2 in order, JSON omits exactly '
-         'the absent optionals; model, implementation and an independent Python transcription of the spec are compared on random blocks, every '
-         'length class and a per-byte sensitivity sweep')
+LEVEL = ('hand model of game_start / player / game_end (Model/Start.v) and of the serde renderings (Model/Json.v); proved (Properties/C05.v): the decoders keep the raw blocks, every exposed field is the stated slice of the block, optional tails by length, JSON omits absent options -- and the same statements restated through the read layout regenerated from src/io/slippi/de.rs on every run (offsets, widths, order of reads, tail sizes, per-player geometry), so a moved/swapped/resized read breaks a proof; model tied to the code by a 3-way differential run (implementation, model, independent Python transcription of the spec) incl. a byte-sensitivity sweep; Shift-JIS double-byte names are outside the executable model (partial)')
 
 SIZES = [320, 352, 416, 417, 418, 420, 584, 700, 701, 760]
 
